@@ -35,6 +35,10 @@ type script struct {
 	Steps []step `json:"steps"`
 	// Variant: per request the concrete realisation of its flavour ("" for good)
 	Variant map[string]string `json:"variant,omitempty"`
+	// Context: per request the concrete realisation of its context ("" = the original context c0): a legal variation of
+	// what accompanies the value (other unauthenticated client_id / scope / tenant path, a DPoP header, another
+	// presentation or proof carrying the same value, a wallet_nonce)
+	Context map[string]string `json:"context,omitempty"`
 	// ObjMethod: reqobj only, request_uri_method of the stored request object ("get"/"post")
 	ObjMethod string `json:"obj_method,omitempty"`
 	// Mutant: binding demonstration only (a deliberately broken cache)
@@ -49,6 +53,7 @@ type input struct {
 type reqResult struct {
 	Flavour string `json:"flavour"`
 	Variant string `json:"variant,omitempty"`
+	Context string `json:"context,omitempty"`
 	Status  int    `json:"status"`
 	Ok      bool   `json:"ok"`
 	Detail  string `json:"detail,omitempty"`
@@ -60,7 +65,10 @@ type violation struct {
 	Kind    string `json:"kind"`
 	Site    string `json:"site"`
 	Pattern string `json:"pattern"`
-	Detail  string `json:"detail"`
+	// Contexts: "same" = the honoured requests were sent in the same context, "different" = the value was honoured once
+	// more in another context
+	Contexts string `json:"contexts,omitempty"`
+	Detail   string `json:"detail"`
 }
 
 type result struct {
@@ -103,6 +111,28 @@ func (w *world) runScript(sc script, blockedAfter time.Duration) (res result) {
 	if variant == nil {
 		variant = map[string]string{}
 	}
+	// abstract context ("c0"/"c1") of every request as TLC chose it, and its concrete realisation
+	ctx := map[string]string{}
+	if m, ok := sc.Steps[0]["ctx"].(map[string]any); ok {
+		for k, v := range m {
+			ctx[k], _ = v.(string)
+		}
+	}
+	for k := range flav {
+		if ctx[k] == "" {
+			ctx[k] = "c0"
+		}
+	}
+	reqCtx := sc.Context
+	if reqCtx == nil {
+		reqCtx = map[string]string{}
+	}
+	for k := range flav {
+		if (ctx[k] == "c0") != (reqCtx[k] == "") {
+			res.Error = fmt.Sprintf("request %s: abstract context %s does not go with concrete context %q", k, ctx[k], reqCtx[k])
+			return
+		}
+	}
 	secret := secretValue()
 	_ = w.gs.inner.Clear(context.Background())
 	r := &run{sched: gate.New(), secret: secret, actors: map[int64]string{}, gids: map[string]int64{}, ttl: map[string]time.Duration{}, stale: map[string]any{}, mutant: sc.Mutant}
@@ -112,7 +142,7 @@ func (w *world) runScript(sc script, blockedAfter time.Duration) (res result) {
 	defer w.gs.set(nil)
 	defer func() { res.Trace = r.trace }()
 
-	reqs, err := w.prepare(kind, secret, flav, variant, sc.ObjMethod)
+	reqs, err := w.prepare(kind, secret, flav, variant, reqCtx, sc.ObjMethod)
 	if err != nil {
 		res.Error = "prepare: " + err.Error()
 		return
@@ -124,7 +154,7 @@ func (w *world) runScript(sc script, blockedAfter time.Duration) (res result) {
 		}
 	}
 	r.mu.Unlock()
-	r.record(map[string]any{"ev": "init", "kind": kind, "flav": flav})
+	r.record(map[string]any{"ev": "init", "kind": kind, "flav": flav, "ctx": ctx})
 
 	var omu sync.Mutex
 	names := make([]string, 0, len(reqs))
@@ -136,7 +166,7 @@ func (w *world) runScript(sc script, blockedAfter time.Duration) (res result) {
 		name, rq := name, reqs[name]
 		r.sched.Go(name, func(context.Context) {
 			r.register(name)
-			out := &reqResult{Flavour: flav[name], Variant: variant[name]}
+			out := &reqResult{Flavour: flav[name], Variant: variant[name], Context: reqCtx[name]}
 			out.Begin = r.record(map[string]any{"ev": "begin", "r": name})
 			finished := false
 			defer func() {
@@ -280,22 +310,26 @@ func (w *world) judge(res *result, r *run, kind string) {
 		s := ""
 		for _, n := range names {
 			o := res.Outcomes[n]
-			s += fmt.Sprintf(" %s[%s%s status=%d events %d..%d]", n, o.Flavour, map[bool]string{true: "/" + o.Variant, false: ""}[o.Variant != ""], o.Status, o.Begin, o.End)
+			s += fmt.Sprintf(" %s[%s%s%s status=%d events %d..%d]", n, o.Flavour, map[bool]string{true: "/" + o.Variant, false: ""}[o.Variant != ""],
+				map[bool]string{true: " context=" + o.Context, false: ""}[o.Context != ""], o.Status, o.Begin, o.End)
 		}
 		return s
 	}
 	// at most one request presenting the value succeeds
 	if len(okReqs) > 1 {
-		pattern := "concurrent"
+		pattern, contexts := "concurrent", "same"
 		for i := range okReqs {
 			for j := i + 1; j < len(okReqs); j++ {
 				a, b := res.Outcomes[okReqs[i]], res.Outcomes[okReqs[j]]
 				if !(a.Begin < b.End && b.Begin < a.End) {
 					pattern = "sequential"
 				}
+				if a.Context != b.Context {
+					contexts = "different"
+				}
 			}
 		}
-		res.Violations = append(res.Violations, violation{Kind: "double-success", Site: site, Pattern: pattern,
+		res.Violations = append(res.Violations, violation{Kind: "double-success", Site: site, Pattern: pattern, Contexts: contexts,
 			Detail: fmt.Sprintf("%d requests presenting the same value were honoured:%s", len(okReqs), describe(okReqs))})
 	}
 	// an authorization code is dead after any failed redemption attempt
